@@ -356,7 +356,7 @@ class Ctx:
         v = self.viol.setdefault(mechanism, {'count': 0, 'witnesses': []})
         v['count'] += 1
         if len(v['witnesses']) < MAX_WITNESS:
-            v['witnesses'].append({'case': jsonable(case), 'detail': jsonable(detail)})
+            v['witnesses'].append({'case': jsonable(case), 'detail': jsonable(detail), 'env': call_environment()})
 
     def inconc(self, reason):
         if reason not in self.inconclusive:
@@ -567,6 +567,33 @@ class ResultKeeper:
                 self.ctx.violation(label + ':earlier-result-changed-by-later-call', case,
                                    {'returned_then': jsonable(snap), 'holds_now': jsonable(result)})
                 self.kept = [k for k in self.kept if k[0] is not result]
+
+
+# --------------------------------------------------------------------------------------------
+# environment of the calls: time zone and working directory differ from shard to shard
+# --------------------------------------------------------------------------------------------
+SHARD_TIMEZONES = (None, 'AEST-10AEDT,M10.1.0,M4.1.0/3', 'UTC', 'EST5EDT,M3.2.0,M11.1.0')
+
+
+def shard_environment(idx):
+    """Environment of shard `idx`: every second shard runs in a time zone with daylight saving (southern / northern rule,
+    POSIX TZ strings: no tz database needed), every third in a scratch working directory of its own."""
+    tz = SHARD_TIMEZONES[idx % len(SHARD_TIMEZONES)] if isinstance(idx, int) else None
+    return {'TZ': tz, 'own_cwd': isinstance(idx, int) and idx % 3 == 1}
+
+
+def call_environment():
+    return {'TZ': os.environ.get('TZ'), 'cwd_is_verif_root': os.path.realpath(os.getcwd()) == os.path.realpath(VERIF_ROOT)}
+
+
+def apply_environment(env):
+    import time as _t
+    tz = (env or {}).get('TZ')
+    if tz:
+        os.environ['TZ'] = tz
+    else:
+        os.environ.pop('TZ', None)
+    _t.tzset()
 
 
 # --------------------------------------------------------------------------------------------
